@@ -9,11 +9,11 @@
 (*     computed from the definitions (invariant Emit), one JSON per line.   *)
 (* checks/c09.py hands the printed cases to harness/drv_arith.cc, which     *)
 (* runs the real routines and reports raw results; the comparison is a      *)
-(* table lookup.  Fam selects the family, P the bounds (PQuick / PThorough).*)
+(* table lookup.  Fams selects the families, P the bounds (PQuick/PThorough).*)
 (***************************************************************************)
 EXTENDS Arith, Json
 
-CONSTANTS Fam,    \* "pow" | "powT" | "koch" | "sqp" | "sqn" | "ip"
+CONSTANTS Fams,   \* the families enumerated in this run: subset of {"pow", "powT", "koch", "sqp", "sqn", "ip"}
           P       \* record of bounds
 
 VARIABLE st
@@ -21,8 +21,8 @@ gvars == <<st>>
 
 PQuick == [ ModHi |-> 101, Even |-> {2, 4, 6, 8, 10, 12, 16}, ELo |-> -40, EHi |-> 40,
             CoinMax |-> 23, RepMax |-> 31,
-            T |-> 2048, TMods |-> {3, 5, 7, 9, 15, 21, 23, 25},
-            KLo |-> -9, KHi |-> 9, KMods |-> {3, 5, 7, 9, 11, 13, 15, 21, 23},
+            T |-> 2048, TMods |-> {3, 5, 7, 9, 15, 21},
+            TR |-> {0, 1, 3}, KLo |-> -9, KHi |-> 9, KMods |-> {3, 5, 7, 9, 11, 13, 15, 21, 23},
             PHi |-> 400, NqAll |-> 120, RootThm |-> 400,
             NHi |-> 60, NThm |-> 300,
             Ip |-> { <<2, 1>>, <<2, 2>>, <<2, 3>>, <<3, 1>>, <<3, 2>>, <<3, 3>>, <<3, 4>>,
@@ -32,7 +32,7 @@ PThorough == [ ModHi |-> 257, Even |-> {2, 4, 6, 8, 10, 12, 16, 18, 20, 24, 30, 
             ELo |-> -70, EHi |-> 70,
             CoinMax |-> 41, RepMax |-> 61,
             T |-> 2048, TMods |-> {3, 5, 7, 9, 11, 13, 15, 17, 19, 21, 23, 25, 27, 33, 35, 49, 77, 101},
-            KLo |-> -16, KHi |-> 16, KMods |-> {3, 5, 7, 9, 11, 13, 15, 17, 19, 21, 23, 25, 27, 29, 31, 33, 35, 37, 39, 41},
+            TR |-> {0, 1, 2, 3, 5}, KLo |-> -16, KHi |-> 16, KMods |-> {3, 5, 7, 9, 11, 13, 15, 17, 19, 21, 23, 25, 27, 29, 31, 33, 35, 37, 39, 41},
             PHi |-> 2000, NqAll |-> 200, RootThm |-> 600,
             NHi |-> 100, NThm |-> 600,
             Ip |-> { <<2, 1>>, <<2, 2>>, <<2, 3>>, <<3, 1>>, <<3, 2>>, <<3, 3>>, <<3, 4>>,
@@ -50,19 +50,18 @@ OddPrimes(hi) == PrimesIn(3, hi - 1)
 Root == [k |-> "root"]
 Init == st = Root
 Level1 ==
-  CASE Fam = "pow"  -> {[k |-> "m", m |-> m] : m \in Moduli}
-    [] Fam = "powT" -> {[k |-> "m", m |-> m] : m \in P.TMods}
-    [] Fam = "koch" -> {[k |-> "m", m |-> m] : m \in P.KMods}
-    [] Fam = "sqp"  -> {[k |-> "sqp", p |-> p] : p \in OddPrimes(P.PHi)}
-    [] Fam = "sqn"  -> {[k |-> "sqn", p |-> z[1], q |-> z[2]] :
-                          z \in {y \in OddPrimes(P.NHi) \X OddPrimes(P.NHi) : y[1] < y[2]}}
-    [] Fam = "ip"   -> {[k |-> "qm", q |-> z[1], n |-> z[2]] : z \in P.Ip}
+  (IF "pow"  \in Fams THEN {[k |-> "m", fam |-> "pow", m |-> m] : m \in Moduli} ELSE {}) \cup
+  (IF "powT" \in Fams THEN {[k |-> "m", fam |-> "powT", m |-> m] : m \in P.TMods} ELSE {}) \cup
+  (IF "koch" \in Fams THEN {[k |-> "m", fam |-> "koch", m |-> m] : m \in P.KMods} ELSE {}) \cup
+  (IF "sqp"  \in Fams THEN {[k |-> "sqp", p |-> p] : p \in OddPrimes(P.PHi)} ELSE {}) \cup
+  (IF "sqn"  \in Fams THEN {[k |-> "sqn", p |-> z[1], q |-> z[2]] :
+                              z \in {y \in OddPrimes(P.NHi) \X OddPrimes(P.NHi) : y[1] < y[2]}} ELSE {}) \cup
+  (IF "ip"   \in Fams THEN {[k |-> "qm", fam |-> "ip", q |-> z[1], n |-> z[2]] : z \in P.Ip} ELSE {})
 Level2(s) ==
-  CASE Fam = "pow"  -> {[k |-> "pow", m |-> s.m, b |-> b] : b \in 0..(s.m - 1)}
-    [] Fam = "powT" -> {[k |-> "powT", m |-> s.m, b |-> b] : b \in 0..(s.m - 1)}
-    [] Fam = "koch" -> {[k |-> "koch", m |-> s.m, e |-> e] : e \in P.KLo..P.KHi}
-    [] Fam = "ip"   -> {[k |-> "ip", q |-> s.q, a |-> a] : a \in [1..s.n -> 0..(s.q - 1)]}
-    [] OTHER -> {}
+  CASE s.fam = "pow"  -> {[k |-> "pow", m |-> s.m, b |-> b] : b \in 0..(s.m - 1)}
+    [] s.fam = "powT" -> {[k |-> "powT", m |-> s.m, b |-> b] : b \in 0..(s.m - 1)}
+    [] s.fam = "koch" -> {[k |-> "koch", m |-> s.m, e |-> e] : e \in P.KLo..P.KHi}
+    [] s.fam = "ip"   -> {[k |-> "ip", q |-> s.q, a |-> a] : a \in [1..s.n -> 0..(s.q - 1)]}
 Next == \/ st = Root /\ st' \in Level1
         \/ st.k \in {"m", "qm"} /\ st' \in Level2(st)
 Spec == Init /\ [][Next]_gvars
@@ -109,7 +108,7 @@ ThPow(m, b) ==
 
 --------------------------------------------------------------------------
 (* family powT: exponents s (2^k + r) around the table limit T              *)
-TermSet == {[s |-> s, k |-> k, r |-> r] : s \in {1, -1}, k \in {P.T - 2, P.T - 1, P.T, P.T + 3}, r \in {0, 1, 2, 3}}
+TermSet == {[s |-> s, k |-> k, r |-> r] : s \in {1, -1}, k \in {P.T - 2, P.T - 1, P.T, P.T + 3}, r \in P.TR}
 PowTLine(m, b) ==
   LET cop == Coprime(b, m)
   IN [ f |-> "powT", m |-> m, b |-> b, T |-> P.T,
@@ -172,8 +171,10 @@ SqnLine(p, q) ==
 ThSqn(p, q) ==
   LET n == p * q
       qr == QRs(n)
+      qrp == QRs(p)
+      qrq == QRs(q)
   IN /\ Cardinality(qr) * 4 = (p - 1) * (q - 1)
-     /\ \A a \in 0..(n - 1) : a \in qr <=> (a % p \in QRs(p) /\ a % q \in QRs(q))      \* what a residuosity test may use
+     /\ \A a \in 0..(n - 1) : a \in qr <=> (a % p \in qrp /\ a % q \in qrq)      \* what a residuosity test may use
      /\ (Idem(p, q) + Idem(q, p)) % n = 1
      /\ n <= P.NThm => /\ \A a \in qr : Cardinality(Roots(a, n)) = 4
                        /\ \A a \in qr, r \in 0..(n - 1) : IsRoot(r, a, n) <=> IsRootCRT(r, a, p, q)
